@@ -611,6 +611,22 @@ impl TransactionBuilder {
             }
         }
 
+        // every asset of the target has to be covered as well: the random-improve strategies select for the assets
+        // of the outputs only and the ADA-only strategies for no asset at all, but the target also holds burnt assets
+        if let Some(ma) = &output_total.multiasset {
+            for (policy_id, assets) in ma.0.iter() {
+                for (asset_name, amount) in assets.0.iter() {
+                    let selected = input_total
+                        .multiasset
+                        .as_ref()
+                        .map_or(BigNum::zero(), |ma| ma.get_asset(policy_id, asset_name));
+                    if &selected < amount {
+                        return Err(JsError::from_str("UTxO Balance Insufficient"));
+                    }
+                }
+            }
+        }
+
         Ok(())
     }
 
